@@ -87,6 +87,7 @@ class FakeController(object):
         self.mem[i:i + len(data)] = data
 
     def sdram_free(self, ptr, x, y):
+        self._fault()
         self.freed.append(ptr)
 
 
@@ -110,6 +111,9 @@ def alphabet(tier):
     # the controller access fails (e.g. an SCP timeout): nothing was
     # transferred, so the position must not move
     ops += [("read_fail", 2), ("read_fail", "default"), ("write_fail", 2)]
+    # ... or the command that frees the block fails: the block is still
+    # allocated and its views still work
+    ops += [("free_fail",)]
     ops += [("slice_step", 2), ("index", 1), ("tell",), ("len",),
             ("address",), ("flush",), ("close",), ("with",), ("free",)]
     return ops
@@ -164,7 +168,7 @@ def _apply(world, v, op, problems, known):
     log0 = len(world.ctl.log)
     name = op[0]
     world.ctl.fail_next = world.ctl.faulted = False
-    if name in ("read_fail", "write_fail"):
+    if name in ("read_fail", "write_fail", "free_fail"):
         world.ctl.fail_next = True
         name = name[:-5]
     dead = mod.closed or world.freed
@@ -251,6 +255,20 @@ def _apply(world, v, op, problems, known):
             if not isinstance(exc, OSError):
                 bad("double_free", "second free() %s"
                     % ("raised %r" % exc if exc else "succeeded"))
+        elif faulted:
+            alive = True
+            try:
+                real.tell()
+            except OSError:
+                alive = False
+            if not isinstance(exc, ControllerFault) or world.ctl.freed or \
+                    (not alive and not mod.closed):
+                bad("failed_free", "the command freeing the block failed "
+                    "(%r); free() %s, the view is %s, blocks freed on the "
+                    "machine: %r" % (
+                        "injected", "raised %r" % exc if exc else
+                        "returned normally", "alive" if alive else "dead",
+                        world.ctl.freed))
         else:
             if exc is not None or world.ctl.freed[-1:] != [mod.start]:
                 bad("free", "free() raised %r / freed %r" %
@@ -519,6 +537,64 @@ def part_filelike(acc):
     acc.sample(dict(filelike=True, sizes=[0, 1, 2, 3, 4, 5, 10, 13, 16]))
 
 
+def part_overlap(acc):
+    """Read a span, write a block that overlaps it (starting before, inside
+    or at it) through another view of the same allocation, read the same
+    span again: every span and every block of an 8-byte allocation, the
+    second read through the same view (seek back) and through a fresh
+    slice."""
+    from rig.machine_control.machine_controller import MemoryIO
+    L = 8
+    for a in range(L):
+        for n in range(1, L - a + 1):
+            for b in range(L):
+                for m in range(1, L - b + 1):
+                    if not (b < a + n and a < b + m):
+                        continue        # no overlap
+                    for how in ("same_view", "fresh_slice", "root"):
+                        acc.evaluations += 1
+                        acc.transitions += 3
+                        acc.nontrivial += 1
+                        ctl = FakeController(L)
+                        root = MemoryIO(ctl, 1, 2, BASE, BASE + L)
+                        model = bytearray(ctl.mem[GUARD:GUARD + L])
+                        case = dict(overlap=[a, n, b, m, how])
+                        try:
+                            v = root if how == "root" else root[a:a + n]
+                            if how == "root":
+                                v.seek(a)
+                            r1 = v.read(n)
+                            w = root[b:b + m]
+                            data = bytes(0x41 + i for i in range(m))
+                            w.write(data)
+                            model2 = bytearray(model)
+                            model2[b:b + m] = data
+                            if how == "fresh_slice":
+                                v = root[a:a + n]
+                            elif how == "root":
+                                v.seek(a)
+                            else:
+                                v.seek(0)
+                            r2 = v.read(n)
+                        except Exception as e:
+                            acc.violation(dict(kind="overlap_exception"),
+                                          case, "%s: %s" % (type(e).__name__,
+                                                            e))
+                            continue
+                        if r1 != bytes(model[a:a + n]) or \
+                                r2 != bytes(model2[a:a + n]):
+                            acc.violation(
+                                dict(kind="read_after_overlapping_write"),
+                                case,
+                                "read [%d,%d) -> %r; write [%d,%d) through "
+                                "another view; read [%d,%d) again (%s) -> %r,"
+                                " the file holds %r"
+                                % (a, a + n, r1, b, b + m, a, a + n, how, r2,
+                                   bytes(model2[a:a + n])))
+    acc.states += 1
+    acc.sample(dict(overlap=True, length=L))
+
+
 BIG = 600
 
 
@@ -582,7 +658,7 @@ def run_big(params, tier, acc):
 
 def shards(tier):
     ops = alphabet(tier)
-    out = [dict(filelike=True)]
+    out = [dict(filelike=True), dict(overlap=True)]
     nb = len(big_alphabet())
     for i in range(0, nb, 3):
         out.append(dict(big=True, first=[i, min(i + 3, nb)]))
@@ -598,6 +674,9 @@ def run_shard(params, tier, acc):
         return
     if params.get("big"):
         run_big(params, tier, acc)
+        return
+    if params.get("overlap"):
+        part_overlap(acc)
         return
     ops = alphabet(tier)
     depth = scope(tier)["depth"]
@@ -650,6 +729,9 @@ def run_shard(params, tier, acc):
 def replay(case, acc):
     if case.get("filelike"):
         part_filelike(acc)
+        return
+    if case.get("overlap"):
+        part_overlap(acc)
         return
     hist = [(a, tuple(b)) for a, b in case["hist"]]
     w = build(case["length"], hist[:-1])
